@@ -1,7 +1,9 @@
+import Cuke.Lemmas.SchedOrder
 import Cuke.Lemmas.Sched
 import Cuke.Model.SchedLts
 import Cuke.Lemmas.SchedInv
 import Cuke.Props.C07
+import Cuke.Props.C05
 /-!
 # C06 — Never more scenarios in flight than the concurrency limit
 Model: `Cuke.getBatch`, `Cuke.Slots.{ask,onDispatch,onConsume}`, `Cuke.SCfg.limit` and their use in the
@@ -193,5 +195,43 @@ theorem lts_inflight_le_limit (c : SCfg) (ls : List Label) (k : Nat) (hk : c.lim
 /-- the hypothesis is what the check establishes: the witness log of F-C07 (a real run shape) is accepted
     with no disagreement at all, hence Good -/
 example : Cuke.SchedInv.Good (accept Cuke.C07.wcfg Cuke.C07.witness) = true := by decide +kernel
+
+open Cuke.SchedInv Cuke.SchedOrd in
+/-- **With a limit of 1, attempts run strictly one after another.** In every run replayed without a disagreement,
+    whenever a scenario event is sent, the attempt it belongs to is the ONLY attempt in flight — so the events of
+    two attempts never interleave: between the first and the last event of an attempt no other attempt exists. -/
+theorem lts_limit_one_sequential (c : SCfg) (hk : c.limit = some 1) (ls : List Label)
+    (hc : Clean0 (accept c ls) = true) (pre suf : List Label) (k : ScenKey) (ret : Option Retries) (se : ScenEv)
+    (hsplit : ls = pre ++ .tx (.scen k ret se) :: suf) :
+    ∃ e, (accept c pre).running = [e] ∧ e.key = k := by
+  subst hsplit
+  have hmono : ∀ (xs : List Label) (s : SState), Clean0 (xs.foldl (stepL c) s) = true → Clean0 s = true := by
+    intro xs
+    induction xs with
+    | nil => intro s h; exact h
+    | cons l rest ih => intro s h; exact clean0_step_mono c s l (ih _ h)
+  have hstep : Clean0 (stepL c (accept c pre) (.tx (.scen k ret se))) = true := by
+    simp only [accept, foldl_append, foldl_cons] at hc
+    exact hmono suf _ hc
+  obtain ⟨e, hmem, hkey⟩ := tx_scen_running c (accept c pre) k ret se hstep
+  have hlen := lts_inflight_le_limit c (pre ++ .tx (.scen k ret se) :: suf) 1 hk (clean0_all _ hc).1 pre _ rfl
+  cases hrun : (accept c pre).running with
+  | nil => rw [hrun] at hmem; cases hmem
+  | cons a rest =>
+    rw [hrun] at hmem hlen
+    cases rest with
+    | nil =>
+      simp only [mem_singleton] at hmem
+      exact ⟨a, rfl, hmem ▸ hkey⟩
+    | cons b rest' => simp at hlen; omega
+
+/-- non-vacuity: the retry example run (C05.rcfg has a limit of 2, here lowered to 1) is replayed without any
+    disagreement, and it sends scenario events of two attempts -/
+example : Cuke.SchedOrd.Clean0 (accept { Cuke.C05.rcfg with builderConc := some (some 1) }
+    (Cuke.C05.rlog.map (fun l => match l with
+      | .get1 t (some 2) a b => .get1 t (some 1) a b
+      | .get2 t (.cont (some 2)) g s r => .get2 t (.cont (some 1)) g s r
+      | .disp n (.cont (some 1)) => .disp n (.cont (some 0))
+      | l => l))) = true := by decide +kernel
 
 end Cuke.C06
